@@ -11,7 +11,7 @@ TRUSTED = pc.TRUSTED
 def run(ctx):
     ctx.add_obligations(vcheck.coq_props("Planner", "C03"))
     ctx.cov["checker_cmd"] = "coqc -Q coq/Planner BWPlanner coq/Planner/Props/C03.v; h_query -mode gen -family c03; model and spec evaluated by vm_compute (coq/Planner/Corr.v)"
-    n = 4000 if ctx.tier == "thorough" else 800
+    n = 2000 if ctx.tier == "thorough" else 800
     args = ["-family", "c03", "-n", str(n)] + (["-exhaustive"] if ctx.tier == "thorough" else [])
     pc.run_family(ctx, "C03", args,
                   "all one-clause shapes (thorough) / a seeded sample (quick) of the subject x predicate x object form lists, "
